@@ -494,6 +494,9 @@ func (env *SpecEnv) valuesEqual(x *SExpr, a, b Value) *Term {
 			return mkEq(y.T, tZero)
 		}
 	}
+	if t, ok := ifaceVsConcrete(a, b); ok {
+		return t
+	}
 	switch av := a.(type) {
 	case Scalar, SpecTerm, PtrVal:
 		ta, tb := specTerm(a), specTerm(b)
@@ -587,6 +590,12 @@ func (env *SpecEnv) call(x *SExpr) Value {
 			env.fail(x, "typeis(x, \"type key\")")
 		}
 		return boolVal(mkEq(dynType(t), mkApp("type!"+x.Args[1].Str, SInt)))
+	case "implements":
+		t := env.evalInt(x.Args[0])
+		if x.Args[1].Kind != "str" {
+			env.fail(x, "implements(x, \"type key\")")
+		}
+		return boolVal(mkApp("implements!"+x.Args[1].Str, SBool, dynType(t)))
 	case "bytesEq":
 		// bytesEq(slice, off, "literal"): slice[off+q] == lit[q] for all q
 		bv := env.eval(x.Args[0])
@@ -770,4 +779,39 @@ func (env *SpecEnv) applyClosure(x *SExpr, clo ClosureVal, args []Value, pre boo
 	}
 	env.fail(x, "contract of "+c.Key+" has no clause `ensures result == E @def`")
 	return nil
+}
+
+// ifaceVsConcrete: comparison of an interface value with a concrete scalar (e.g. err == syscall.EPERM):
+// equal iff the dynamic type is the concrete type and the boxed value is equal.
+func ifaceVsConcrete(a, b Value) (*Term, bool) {
+	as, ok1 := a.(Scalar)
+	bs, ok2 := b.(Scalar)
+	if !ok1 || !ok2 || as.Typ == nil || bs.Typ == nil {
+		return nil, false
+	}
+	isIface := func(t types.Type) bool {
+		_, ok := t.Underlying().(*types.Interface)
+		return ok
+	}
+	if isIface(bs.Typ) && !isIface(as.Typ) {
+		as, bs = bs, as
+	}
+	if !isIface(as.Typ) || isIface(bs.Typ) {
+		return nil, false
+	}
+	if b, isB := bs.Typ.(*types.Basic); isB && b.Info()&types.IsUntyped != 0 {
+		return nil, false
+	}
+	var unboxed *Term
+	switch reprOf(bs.Typ) {
+	case rInt:
+		unboxed = mkApp("unbox!int", SInt, as.T)
+	case rString:
+		unboxed = mkApp("unbox!str", SStr, as.T)
+	case rBool:
+		unboxed = mkApp("unbox!bool", SBool, as.T)
+	default:
+		return nil, false
+	}
+	return mkAnd(mkNe(as.T, tZero), mkEq(dynType(as.T), typeIdTerm(bs.Typ)), mkEq(unboxed, bs.T)), true
 }
